@@ -15,6 +15,7 @@ const (
 	vkDir         // "d<i>/"
 	vkInDir       // "d/g<i>"
 	vkDeep        // "d/e/h<i>"
+	vkDeepDir     // "d/e/m<i>/": an explicit directory entry two levels down
 	vkNested      // "n<i>.zip" holding an archive of its own
 	vkFakeZip     // "k<i>.zip" that is not an archive
 	vkKinds
@@ -62,6 +63,12 @@ func vGenEntries(tag string, maxEntries int, allowNested bool, recursive bool, d
 			entries = append(entries, vEntry{name: "d" + idx + "/", declared: -1})
 			if depthBase > st.maxDepth {
 				st.maxDepth = depthBase
+			}
+			continue
+		case vkDeepDir:
+			entries = append(entries, vEntry{name: "d/e/m" + idx + "/", declared: -1})
+			if depthBase+2 > st.maxDepth {
+				st.maxDepth = depthBase + 2
 			}
 			continue
 		case vkInDir:
